@@ -5,6 +5,7 @@ import (
 	"sync"
 
 	"github.com/lugu/qiloop/bus/net"
+	"github.com/lugu/qiloop/vhook"
 )
 
 // Router dispatch the incomming messages. A Router shall be Activated
@@ -84,5 +85,6 @@ func (r *Router) Receive(m *net.Message, from Channel) error {
 	if ok {
 		return s.Receive(m, from)
 	}
+	vhook.Emit("router", from.EndPoint(), "nosvc", "id", m.Header.ID, "service", m.Header.Service)
 	return from.SendError(m, ErrServiceNotFound)
 }
